@@ -761,6 +761,11 @@ impl ExecutionState {
     pub fn should_stop() -> bool {
         std::thread::panicking()
             || Self::with(|s| {
+                // Drop handlers also run while a finished execution is torn down (e.g. for a detached task that
+                // was cut off before it ever ran); they must exit early then, too.
+                if s.in_cleanup {
+                    return true;
+                }
                 assert_ne!(s.current_task, ScheduledTask::Finished);
                 s.current_task == ScheduledTask::Stopped
             })
